@@ -163,9 +163,19 @@ def roundtrip_lines(rng: random.Random, tier_: str) -> list[dict[str, Any]]:
               for pid, an, ar in ((0, 0, True), (65535, 255, False), (1620, 3, True))]
     if tier_ == 'quick':
         combos = rng.sample(combos, 60)
-    for e, p, d, pid, an, ar in combos:
-        seg = descriptors.SegmentationDescriptor(segmentation_event_id=an, segmentation_duration=0,
-                                                 segmentation_type=descriptors.SegmentationTypeId.PROVIDER_PLACEMENT_OP_START)
+    # every segmentation type (the trailing sub-segment fields exist for some of them only), with and without a duration
+    jobs = [(c, descriptors.SegmentationTypeId.PROVIDER_PLACEMENT_OP_START, {}) for c in combos]
+    base = (7, 1080345, 180000, 1620, 3, True)
+    for st in range(256):
+        jobs.append((base, st, {'segment_num': st % 7, 'segments_expected': 9, 'sub_segment_num': 2, 'sub_segments_expected': 5}))
+    for st in (0x10, 0x22, 0x34, 0x35, 0x36, 0x38, 0x3A, 0x3B, 0x40):
+        jobs.append((base, st, {'segmentation_duration': None}))
+        jobs.append((base, st, {'segmentation_duration': 2**40 - 1, 'delivery_not_restricted_flag': False, 'web_delivery_allowed_flag': True,
+                                'no_regional_blackout_flag': False, 'archive_allowed_flag': True, 'device_restrictions': 2}))
+    for (e, p, d, pid, an, ar), stype, extra in jobs:
+        kwd = {'segmentation_event_id': an, 'segmentation_duration': 0, 'segmentation_type': stype}
+        kwd.update(extra)
+        seg = descriptors.SegmentationDescriptor(**kwd)
         sig = BinarySignal(sap_type=SapType.CLOSED_GOP_NO_LEADING_PICTURES,
                            splice_insert=SpliceInsert(out_of_network_indicator=True, splice_time={'pts': p}, avails_expected=an,
                                                       splice_event_id=e, program_splice_flag=True, avail_num=an, unique_program_id=pid,
@@ -181,9 +191,17 @@ def roundtrip_lines(rng: random.Random, tier_: str) -> list[dict[str, Any]]:
             same = 1 if (kw.get('crc_valid') and si.splice_event_id == e and si.splice_time.pts == p and si.break_duration.duration == d
                          and si.break_duration.auto_return == ar and si.unique_program_id == pid and si.avail_num == an
                          and si.avails_expected == an and back.encode() == data) else 0
+            if same:
+                sd = back.descriptors[0]
+                want_sub = int(stype) in (0x34, 0x36, 0x38, 0x3A)
+                same = 1 if (len(back.descriptors) == 1 and int(sd.segmentation_type) == int(stype)
+                             and sd.segment_num == kwd.get('segment_num', 0) and sd.segments_expected == kwd.get('segments_expected', 0)
+                             and sd.segmentation_duration == kwd['segmentation_duration']
+                             and (not want_sub or (sd.sub_segment_num == kwd.get('sub_segment_num', 0)
+                                                   and sd.sub_segments_expected == kwd.get('sub_segments_expected', 0)))) else 0
         except Exception as err:      # noqa: BLE001
             same = 0
-        lines.append({'ev': 'rt', 'same': same, 'bytes': list(data),
+        lines.append({'ev': 'rt', 'same': same, 'bytes': list(data), 'segmentation_type': int(stype), 'extra': sorted(extra),
                       'fields': {'event_id': {'mid': (e >> 16) & 0xFFFF, 'lo': e & 0xFFFF}, 'pts': limbs33(p), 'dur': limbs33(d),
                                  'program_id': pid, 'avail_num': an, 'avails_expected': an, 'auto_return': 1 if ar else 0}})
     return lines
